@@ -18,6 +18,7 @@ var hostScenarios = []string{
 	"ban_peer",
 	"legal_traffic",
 	"blacklisted",
+	"blacklisted_mapped", // the configuration spells the IPv4 address as IPv4-mapped IPv6
 }
 
 type hObs struct {
@@ -134,7 +135,7 @@ func runHosts(name string) (rec hRec) {
 	}()
 	obs := &rec.Obs
 
-	known := name == "malformed_request_ip6"
+	known := name == "malformed_request_ip6" || name == "blacklisted_ip6_long"
 	for _, s := range hostScenarios {
 		known = known || s == name
 	}
@@ -144,7 +145,7 @@ func runHosts(name string) (rec hRec) {
 	}
 
 	listen, ip, gateAddr := "/ip4/127.0.0.1/tcp/0", "127.0.0.1", "/ip4/127.0.0.1/tcp/1"
-	if name == "malformed_request_ip6" {
+	if name == "malformed_request_ip6" || name == "blacklisted_ip6_long" {
 		listen, ip, gateAddr = "/ip6/::1/tcp/0", "::1", "/ip6/::1/tcp/1"
 	}
 	obs.IP = ip
@@ -161,6 +162,10 @@ func runHosts(name string) (rec hRec) {
 		aLimInterval = 400 * time.Millisecond
 	case "blacklisted":
 		aBlacklist = []string{ip}
+	case "blacklisted_mapped":
+		aBlacklist = []string{"::ffff:127.0.0.1"}
+	case "blacklisted_ip6_long":
+		aBlacklist = []string{"0:0:0:0:0:0:0:0001"}
 	}
 
 	site = "VerifC18NewNode(A)"
@@ -205,7 +210,7 @@ func runHosts(name string) (rec hRec) {
 		return err != nil && !a.IsConnected(b.ID()), errStr(err)
 	}
 
-	if name == "blacklisted" {
+	if strings.HasPrefix(name, "blacklisted") {
 		site = "Connect(B->A)"
 		r, e := dialIn()
 		obs.DialInRefused, obs.DialInErr = bp(r), sp(e)
